@@ -32,13 +32,34 @@ def ways(body, tracked, extra_effects=()):
     (`append`, ..) whose calls as statements are recorded as well"""
     out = []
 
-    def walk(block, conds, ups):
+    def none_test(test, known):
+        """`x is None` / `x is not None` for a tracked x whose value on this way is a known constant -> True / False, else None"""
+        if isinstance(test, ast.Compare) and len(test.ops) == 1 and isinstance(test.ops[0], (ast.Is, ast.IsNot)) and isinstance(test.left, ast.Name) \
+                and test.left.id in known and isinstance(test.comparators[0], ast.Constant) and test.comparators[0].value is None:
+            is_none = known[test.left.id] is None
+            return is_none if isinstance(test.ops[0], ast.Is) else not is_none
+        return None
+
+    def walk(block, conds, ups, known=None):
+        known = dict(known or {})
         block = _dissolve_continue(list(block))
         for k, st in enumerate(block):
             if isinstance(st, ast.If):
                 rest = block[k + 1:]
-                walk(st.body + rest, conds + _cond_keys(st.test, True), list(ups))
-                walk(st.orelse + rest, conds + _cond_keys(st.test, False), list(ups))
+                decided = none_test(st.test, known)
+                if decided is not False:
+                    walk(st.body + rest, conds + ([] if decided else _cond_keys(st.test, True)), list(ups), known)
+                if decided is not True:
+                    walk(st.orelse + rest, conds + ([] if decided is False else _cond_keys(st.test, False)), list(ups), known)
+                return
+            # `x = a if c else b` on a tracked name is the two ways `c: x = a` and `not c: x = b`
+            if isinstance(st, ast.Assign) and len(st.targets) == 1 and isinstance(st.targets[0], ast.Name) and st.targets[0].id in tracked \
+                    and isinstance(st.value, ast.IfExp):
+                rest = block[k + 1:]
+                for val, pos in ((st.value.body, True), (st.value.orelse, False)):
+                    one = ast.copy_location(ast.Assign(targets=[copy.deepcopy(st.targets[0])], value=val), st)
+                    ast.fix_missing_locations(one)
+                    walk([one] + rest, conds + _cond_keys(st.value.test, pos), list(ups), known)
                 return
             if isinstance(st, ast.Raise):
                 out.append(Way(frozenset(conds), tuple(ups), "raise"))
@@ -55,9 +76,16 @@ def ways(body, tracked, extra_effects=()):
             if isinstance(st, (ast.Assign, ast.AugAssign)):
                 tg = st.targets[0] if isinstance(st, ast.Assign) else st.target
                 if isinstance(tg, ast.Name) and tg.id in tracked:
+                    if isinstance(st, ast.Assign) and isinstance(st.value, ast.Name) and st.value.id == tg.id:
+                        continue                      # x = x
                     ups.append(ast.unparse(st))
-            elif isinstance(st, ast.Expr) and isinstance(st.value, ast.Call) and isinstance(st.value.func, ast.Attribute) \
-                    and st.value.func.attr in extra_effects:
+                    if isinstance(st, ast.Assign) and isinstance(st.value, ast.Constant):
+                        known[tg.id] = st.value.value
+                    else:
+                        known.pop(tg.id, None)
+            elif isinstance(st, ast.Expr) and isinstance(st.value, ast.Call) and (
+                    isinstance(st.value.func, ast.Attribute) and st.value.func.attr in extra_effects
+                    or isinstance(st.value.func, ast.Name) and st.value.func.id in extra_effects):
                 ups.append(ast.unparse(st))
             elif isinstance(st, (ast.For, ast.While, ast.With, ast.Try)):
                 ups.append("<block>")
